@@ -201,7 +201,7 @@ func c01(r *ev.Run) {
 		afterWarmups(r, "e2e-after-other-operations", cs, func(c c01Case) (string, string) { return hotpE2E(c, k) })
 	}
 	volume(r, "e2e-volume", 1100, func(k int) c01Case {
-		return c01Case{ref.B32Encode([]byte(fmt.Sprintf("volume-key-%04d", k))), uint64(k) * 0x100000001, 6 + 2*(k%3), k % 3, k%7 == 0}
+		return c01Case{ref.B32Encode([]byte(fmt.Sprintf("volume-key-%04d-0123456789abcdefghij", k))[:10+(k*7)%27]), uint64(k) * 0x100000001, 6 + 2*(k%3), k % 3, k%7 == 0}
 	}, func(c c01Case) (string, string) { _, key := ref.B32Classify(c.Secret); return hotpE2E(c, key) })
 	if ReplayOnly {
 		return
